@@ -1135,6 +1135,8 @@ class Ev:
             return
         if isinstance(t, ast.Attribute):
             base = self.eval(t.value, env, mod)
+            if hasattr(base, "sym_setattr"):
+                return base.sym_setattr(self, t.attr, v, t, mod)
             if isinstance(base, Obj):
                 base.attrs[t.attr] = v
                 return
